@@ -289,6 +289,7 @@ func concWBody(c concW) func() string {
 // ---- (c) ChannelSink ---------------------------------------------------------------------
 
 type chanSc struct {
+	Procs    int // concurrent Process calls (default 1)
 	Name     string
 	Cap      int
 	Prefill  bool
@@ -316,12 +317,40 @@ func chanScenarios() []chanSc {
 			}
 		}
 	}
+	// two overlapping Process calls on one sink (a sink is shared by every Send)
+	for _, cp := range []int{0, 1} {
+		out = append(out,
+			chanSc{Procs: 2, Cap: cp, Prefill: cp == 1, Consumer: "none", Timer: true},
+			chanSc{Procs: 2, Cap: cp, Prefill: cp == 1, Consumer: "none", Cancel: true},
+			chanSc{Procs: 2, Cap: cp, Prefill: false, Consumer: "recv", Timer: true})
+	}
 	for i := range out {
 		c := &out[i]
-		c.Name = fmt.Sprintf("ChannelSink cap=%d prefilled=%v consumer=%s cancel-thread=%v timer-thread=%v", c.Cap, c.Prefill, c.Consumer, c.Cancel, c.Timer)
+		if c.Procs == 0 {
+			c.Procs = 1
+		}
+		c.Name = fmt.Sprintf("ChannelSink cap=%d prefilled=%v consumer=%s cancel-thread=%v timer-thread=%v concurrent-Process-calls=%d", c.Cap, c.Prefill, c.Consumer, c.Cancel, c.Timer, c.Procs)
 	}
 	return out
 }
+
+// armedT lets the timer thread wait until every Process call has armed its
+// timeout - or has already returned (an implementation may stop its timer on return).
+type armedT struct{ need, returned int }
+
+//go:norace
+func (a *armedT) ready() bool { return vrt.PendingTimers() > 0 || a.returned >= a.need }
+
+//go:norace
+func (a *armedT) allReturned() bool { return a.returned >= a.need }
+
+//go:norace
+func (a *armedT) done() { a.returned++ }
+
+//go:norace
+func (a *armedT) reset(n int) { a.need, a.returned = n, 0 }
+
+var armed = &armedT{}
 
 type flags struct{ cancelled, fired bool }
 
@@ -376,20 +405,51 @@ func chanBody(c chanSc) func() string {
 			vrt.GoNamed("canceller", func() { fl.set(0); cancel() })
 		}
 		if c.Timer {
-			vrt.GoNamed("timer", func() { fl.set(1); vrt.AdvanceClock(int64(timeout)) })
+			vrt.GoNamed("timer", func() {
+				// time keeps passing: whenever a timeout is armed it eventually
+				// elapses, until every Process call has returned
+				for i := 0; i <= c.Procs; i++ {
+					vrt.WaitUntil("a timer is armed or all calls returned", armed.ready)
+					if armed.allReturned() {
+						return
+					}
+					fl.set(1)
+					vrt.AdvanceClock(int64(timeout))
+				}
+			})
 		}
 		e := &el.Event{Type: "t", Payload: "x"}
+		e2 := &el.Event{Type: "t", Payload: "y"}
+		var out2 *el.Event
+		var perr2 error
+		var c2, f2 bool
+		armed.reset(c.Procs)
+		p2done := &vrt.Gate{}
+		if c.Procs == 2 {
+			vrt.GoNamed("process2", func() {
+				out2, perr2 = sink.Process(ctx, e2)
+				armed.done()
+				c2, f2 = fl.get()
+				p2done.Open()
+			})
+		}
 		out, perr := sink.Process(ctx, e)
+		armed.done()
 		cancelledAtReturn, firedAtReturn := fl.get()
+		if c.Procs == 2 {
+			p2done.Wait() // the clean-up cancel below must not be what unblocks the second call
+		}
 		cancel() // release a consumer that is still waiting
 		vrt.Join()
 		if out != nil {
 			vrt.Fail("ChannelSink returned an event (sinks are leaves)")
 		}
-		delivered := 0
+		delivered, delivered2 := 0, 0
 		for i := 0; i < ngot; i++ {
 			if got[i] == e {
 				delivered++
+			} else if got[i] == e2 {
+				delivered2++
 			} else if got[i] != filler {
 				vrt.Fail("the consumer received an event that is neither the filler nor the very event given to Process")
 			}
@@ -402,6 +462,23 @@ func chanBody(c chanSc) func() string {
 			}
 			if k.V == e {
 				delivered++
+			}
+			if k.V == e2 {
+				delivered2++
+			}
+		}
+		if c.Procs == 2 {
+			if out2 != nil {
+				vrt.Fail("ChannelSink returned an event (sinks are leaves)")
+			}
+			if perr2 == nil && delivered2 != 1 {
+				vrt.Fail("second Process reported success but its event was handed to the channel %d time(s)", delivered2)
+			}
+			if perr2 != nil && delivered2 != 0 {
+				vrt.Fail("second Process reported an error (%v) but its event was handed to the channel as well", perr2)
+			}
+			if perr2 != nil && !c2 && !f2 {
+				vrt.Fail("second Process reported an error (%v) although neither the timeout had elapsed nor the context was done", perr2)
 			}
 		}
 		if perr == nil && delivered != 1 {
@@ -472,7 +549,7 @@ func main() {
 				return hk.ExploreJob(prop, job, deadline, ex, c.Name)
 			}
 		},
-		Rule: "(a) all format tables over {json, f1, f2} (8) x configured format {unset, json, f1, f2} x harness writer {ok, failing, short write} for writer.Sink, and x {real file, /dev/null, /dev/stdout, /dev/stderr (os.Stdout/Stderr swapped for files), a file that is a symbolic link to /dev/full so that every write fails} for FileSink, plus nil writer / nil event / missing table: success iff the configured format's bytes exist and the write succeeds, then exactly one write of exactly those bytes. (b) 2-4 concurrent Process calls on one writer.Sink with a scheduling point inside the underlying Write, all interleavings (unbounded for 2, and 3 in thorough): never two calls inside Write at once, one write per call; the concurrent FileSink scenarios of C08 under the race detector. (c) ChannelSink: all interleavings and select-arm choices of {Process, consumer, cancel thread, timer thread} for unbuffered / buffered (empty, full) channels: success iff the very event reached the channel exactly once, error only once the timeout elapsed or the context was done, and Process never stays blocked (deadlock verdict).",
+		Rule: "(a) all format tables over {json, f1, f2} (8) x configured format {unset, json, f1, f2} x harness writer {ok, failing, short write} for writer.Sink, and x {real file, /dev/null, /dev/stdout, /dev/stderr (os.Stdout/Stderr swapped for files), a file that is a symbolic link to /dev/full so that every write fails} for FileSink, plus nil writer / nil event / missing table: success iff the configured format's bytes exist and the write succeeds, then exactly one write of exactly those bytes. (b) 2-4 concurrent Process calls on one writer.Sink with a scheduling point inside the underlying Write, all interleavings (unbounded for 2, and 3 in thorough): never two calls inside Write at once, one write per call; the concurrent FileSink scenarios of C08 under the race detector. (c) ChannelSink: all interleavings and select-arm choices of {Process, consumer, cancel thread, timer thread} for unbuffered / buffered (empty, full) channels, also with two overlapping Process calls on the one sink: success iff the very event reached the channel exactly once, error only once the timeout elapsed or the context was done, and Process never stays blocked (deadlock verdict).",
 		Assumptions: []string{
 			"FileSink write faults are injected through a symbolic link to /dev/full (persistent ENOSPC); a fault on the first write followed by a successful retry is not reachable this way and is not covered",
 			"timeouts are modelled timers fired by a harness thread (virtual clock); 'never blocking longer than the shorter of the two' = once the timer fired or the context is done Process returns without any other thread's help",
